@@ -894,6 +894,13 @@ func main() {
 	run := vh.Start("c06", "an operation is non-trivial when it wrote at least one durable unit (feed) or is a crash/restart/dump")
 	w := newWorld(filepath.Join(run.Out, "nodes"))
 	w.prod = w.newProducer()
+	{
+		// NewChainService sets process-wide parameters (zero fee on a private net, governance mode, …): boot one
+		// node before the producer executes anything, so that producer and nodes execute under the same parameters
+		d := filepath.Join(w.root, "warmup")
+		w.initDir(d)
+		w.boot(d).close()
+	}
 	scs := scenarios(w, run)
 	for i, sc := range scs {
 		s := &session{run: run, w: w, sc: sc, dir: filepath.Join(w.root, fmt.Sprintf("s%d", i))}
